@@ -71,6 +71,29 @@ fn main() {
             println!("{}", json!({"cases": cases.len(), "prop_mismatch": nprop, "model_drift": nmodel, "prop": prop, "model": model, "samples": samples,
                                    "counts": {"instantiation_runs": cases.len() * if vt > 1 { 9 } else { 2 }}}));
         }
+        ("simtable", _) => {
+            // similarity table for Receiver.tla: dense ranks of strsim::jaro_winkler and the 0.8 threshold bit
+            let names: Value = serde_json::from_str(&std::fs::read_to_string(&args[2]).unwrap()).unwrap();
+            let us: Vec<String> = names["unknown"].as_array().unwrap().iter().map(|s| s.as_str().unwrap().to_string()).collect();
+            let cs: Vec<String> = names["cands"].as_array().unwrap().iter().map(|s| s.as_str().unwrap().to_string()).collect();
+            let mut all: Vec<f64> = vec![];
+            for u in &us { for c in &cs { all.push(strsim::jaro_winkler(u, c)); } }
+            let mut sorted = all.clone();
+            sorted.sort_by(|a, b| a.partial_cmp(b).unwrap());
+            sorted.dedup();
+            let mut f = std::io::BufWriter::new(std::fs::File::create(&args[3]).unwrap());
+            let mut k = 0;
+            for u in &us {
+                let mut row = vec![];
+                for c in &cs {
+                    let s = all[k]; k += 1;
+                    let rank = sorted.binary_search_by(|x| x.partial_cmp(&s).unwrap()).unwrap() + 1;
+                    row.push(json!({"c": c, "rank": rank, "above": s > 0.8}));
+                }
+                writeln!(f, "{}", json!({"u": u, "cs": row})).unwrap();
+            }
+            println!("{}", json!({"unknown": us.len(), "cands": cs.len()}));
+        }
         ("record", "accum") => {
             let seed: u64 = args[3].parse().unwrap();
             let runs: usize = args[4].parse().unwrap();
